@@ -499,7 +499,7 @@ fn main() {
         class: 0,
         events: vec![],
     };
-    let rounds = if args.thorough { 40 } else { 6 };
+    let rounds = if args.thorough { 40 } else { 16 };
     let max_n = if args.thorough { 5 } else { 3 };
 
     for _round in 0..rounds {
